@@ -56,14 +56,13 @@ def Machine.runAll {V O : Type} (M : Machine V O) : List Op → List V → List 
 
 /-! ### the loader model as a machine -/
 
-/-- outputs of the loader operations; in-place functions return (a reference to) their
-argument cell -/
+/-- outputs of the loader operations -/
 inductive LoadOut where
   | cx (r : Except Err GQ)
   | net (r : Except Err (List LBranch))
   | comp (r : Except Err Comp)
   | circ (r : Except Err Circ)
-  | inPlace (e : Option Err) (cell : Nat)
+  | tree (r : Except Err J)
   | badOp
 deriving Repr
 
@@ -81,24 +80,20 @@ def loadParams : List (String × String) := [
   ("dump_load.undictify_all_complex_values", "data")]
 
 /-- semantics of one loader operation on the value of its argument cell: the cell's
-post-state and the output (in-place functions return a reference to the cell) -/
-def loadSem (T : Trig) (fn : String) (flag : Bool) (v : J) : Option (J × (Nat → LoadOut)) :=
+post-state and the output -/
+def loadSem (T : Trig) (fn : String) (flag : Bool) (v : J) : Option (J × LoadOut) :=
   if fn = "Network.loaders.to_complex" then
-    let r := toComplex T v flag; some (r.2, fun _ => .cx r.1)
+    let r := toComplex T v flag; some (r.2, .cx r.1)
   else if fn = "Network.loaders.load_network" then
-    let r := loadNetwork T v; some (r.2, fun _ => .net r.1)
+    let r := loadNetwork T v; some (r.2, .net r.1)
   else if fn = "Circuit.dump_load.generate_component" then
-    let r := generateComponent v; some (r.2, fun _ => .comp r.1)
+    let r := generateComponent v; some (r.2, .comp r.1)
   else if fn = "Circuit.dump_load.undictify_circuit" then
-    let r := undictifyCircuit v; some (r.2, fun _ => .circ r.1)
-  else if fn = "dump_load.dictify_complex_values" then
-    let r := dictifyCxJ v; some (r.2, fun i => .inPlace r.1 i)
-  else if fn = "dump_load.dictify_all_complex_values" then
-    let r := dictifyAll v; some (r.2, fun i => .inPlace r.1 i)
-  else if fn = "dump_load.undictify_complex_values" then
-    let r := undictifyCxJ T v; some (r.2, fun i => .inPlace r.1 i)
-  else if fn = "dump_load.undictify_all_complex_values" then
-    let r := undictifyAll T v; some (r.2, fun i => .inPlace r.1 i)
+    let r := undictifyCircuit v; some (r.2, .circ r.1)
+  else if fn = "dump_load.dictify_complex_values" then some (v, .tree (dictifyCxJ v))
+  else if fn = "dump_load.dictify_all_complex_values" then some (v, .tree (.ok (dictifyAll v)))
+  else if fn = "dump_load.undictify_complex_values" then some (v, .tree (undictifyCxJ T v))
+  else if fn = "dump_load.undictify_all_complex_values" then some (v, .tree (undictifyAll T v))
   else none
 
 /-- one step of the loader machine: the operation must name the real parameter -/
@@ -109,7 +104,7 @@ def loadStep (T : Trig) (h : List J) (op : LoadOp) : List J × LoadOut :=
     | some v, some (_, q) =>
       if p = q then
         match loadSem T op.fn op.flag v with
-        | some (v', out) => (h.set i v', out i)
+        | some (v', out) => (h.set i v', out)
         | none => (h, .badOp)
       else (h, .badOp)
     | _, _ => (h, .badOp)
@@ -118,26 +113,9 @@ def loadStep (T : Trig) (h : List J) (op : LoadOp) : List J × LoadOut :=
 def loadMachine (T : Trig) : Machine J LoadOut :=
   { run := fun op h => let r := loadStep T h op; (r.2, r.1) }
 
-/-- operations of the scope modules whose write set is *not* empty on the current tree:
-the loaders of C17 that write into their argument (`load_network` pops the entry keys,
-`to_complex` converts the phase in place — and everything that forwards an argument to
-`to_complex`), and the conversions of dump_load.py that work in place by design. -/
-def frameExceptions : List String := [
-  "Network.loaders.to_complex",
-  "Network.loaders.translate_to_complex",
-  "Network.loaders.load_network",
-  "Network.loaders.load_network.entry_to_branch",
-  "Network.loaders.network_branch_translators[impedance]",
-  "Network.loaders.network_branch_translators[admittance]",
-  "Network.loaders.network_branch_translators[linear_current_source]",
-  "Network.loaders.network_branch_translators[current_source]",
-  "Network.loaders.network_branch_translators[linear_voltage_source]",
-  "Network.loaders.network_branch_translators[voltage_source]",
-  "dump_load.dictify_complex_values",
-  "dump_load.undictify_complex_values",
-  "dump_load.dictify_all_complex_values",
-  "dump_load.undictify_all_complex_values",
-  "dump_load.serialize",
-  "dump_load.dump"]
+/-- operations of the scope modules whose write set is *not* empty on the current tree: none
+(until the fix commits b501fa0, cd8d9e4, 2481879 the list named `to_complex`, `load_network`,
+everything forwarding to them, and the in-place conversions of dump_load.py). -/
+def frameExceptions : List String := []
 
 end CC.Load
